@@ -72,6 +72,9 @@ func main() {
 	case "c11stress": // C11 exploration: concurrent stress run (c11_stress.go)
 		c11StressMain()
 		return
+	case "c17worker": // C17 query lifecycle: real table operations under a watchdog, abandoned on a deadlock (c17_qlife.go)
+		c17WorkerMain()
+		return
 	case "tnworker": // C13 tenant isolation end to end, one dataset per process (c13_tenant_e2e.go)
 		tnWorkerMain()
 		return
